@@ -91,6 +91,12 @@ func c01r1(c *Ctx) {
 			okAt, whyAll := "", []string{}
 			skip := false
 			for {
+				// a parameter kept in a variable cell (captured by a function literal) is still that parameter
+				if u, isLoad := objV.(*ssa.UnOp); isLoad {
+					if f := forwarded(u); f != nil {
+						objV = f
+					}
+				}
 				res, why, notApplicable := creditAddInLevel(c.P, owner, objV, at, acct, class)
 				if notApplicable {
 					skip = true
